@@ -143,9 +143,9 @@ fn eval_one(n_samples: usize, t: usize, a: usize, m: usize, what: &str) -> Optio
                 && g.spectrum.data.len() == expect.len()
                 // one record, one population: every entry is a single pmf value, so the comparison is
                 // relative even for the far tails (a contribution of 1e-200 must not be dropped)
-                && g.spectrum.data.iter().zip(&expect).all(|(x, r)| crate::refmodel::close(*x, *r, 1e-8, 1e-300));
+                && g.spectrum.data.iter().zip(&expect).all(|(x, r)| crate::refmodel::close_coef_n(*x, *r, t as u64));
             if !ok {
-                let at = g.spectrum.data.iter().zip(&expect).position(|(x, r)| !crate::refmodel::close(*x, *r, 1e-8, 1e-300));
+                let at = g.spectrum.data.iter().zip(&expect).position(|(x, r)| !crate::refmodel::close_coef_n(*x, *r, t as u64));
                 return Some((
                     format!("C02|lib|{what}-{}|{size_class}", if finite { "wrong" } else { "non-finite" }),
                     format!(
@@ -487,7 +487,7 @@ pub fn run(tier: Tier) -> i32 {
         }
         // precision sweep on the full target
         let full: Vec<usize> = n.iter().map(|x| 2 * x - 1).collect();
-        for p in [0usize, 3, 12] {
+        for p in [0usize, 1, 3, 12, 17, 320] {
             cj.push(CliJob { map: map.clone(), rows: rows.clone(), m: full.clone(), precision: p, individuals: false, what: "precision-sweep", odd_unselected: false });
         }
     }
@@ -509,13 +509,13 @@ pub fn run(tier: Tier) -> i32 {
         name: "cli: sfs create --project-shape / -p".into(),
         evaluations: cj.len() as u64,
         nontrivial: cj.len() as u64,
-        note: "14 maps of 3 samples x every target vector (maps with an unselected sample also with haploid / triploid genotypes in that sample); 12-record call set with missing/multiallelic patterns and single records; -p vs --project-shape byte identity; precision 0/3/6/12; skipped count on stderr; three larger cohorts (30 samples in 3 populations projected to 11x11x9 = 1 089 entries, 70 in 2 to 67x63 = 4 221, 24 in one, 12 in six and 16 in eight populations) with missing and multiallelic genotypes, every printed value compared".into(),
+        note: "14 maps of 3 samples x every target vector (maps with an unselected sample also with haploid / triploid genotypes in that sample); 12-record call set with missing/multiallelic patterns and single records; -p vs --project-shape byte identity; precision 0/1/3/6/12/17/320; skipped count on stderr; three larger cohorts (30 samples in 3 populations projected to 11x11x9 = 1 089 entries, 70 in 2 to 67x63 = 4 221, 24 in one, 12 in six and 16 in eight populations) with missing and multiallelic genotypes, every printed value compared".into(),
         exhaustive: true,
         extra: vec![],
     });
     rep.assumptions = vec![
         "reference hyper_exact (exact u128 binomials for N<=120, compensated log-factorials above)".into(),
-        "tolerance |x-r| <= 1e-8|r| + 1e-13 per coefficient (DESIGN 2.9)".into(),
+        "one-record rows are compared per coefficient, relatively also in the tails: 1e-11 for t <= 170 chromosomes, 1e-10 for t <= 5000, 1e-8 above; multi-record sums within 1e-8|r| + 1e-13 (DESIGN 2.9)".into(),
     ];
     rep.finish()
 }
